@@ -105,18 +105,16 @@ func goid() uint64 {
 	return id
 }
 
-// me identifies the calling client. While no client has ever blocked in a primitive that is the current one.
+// me identifies the calling client, -1 when the caller is none of them (a goroutine the code under test started itself:
+// it is not the scheduler's to park; it runs beside the clients as the Go runtime lets it).
 func (s *Sched) me() int {
-	if !s.anyPrim {
-		return s.cur
-	}
 	g := goid()
 	for i, id := range s.gids {
 		if id == g {
 			return i
 		}
 	}
-	return s.cur
+	return -1
 }
 
 // parkReleased: a client that was blocked in a primitive has been released by another client and reached a
@@ -144,6 +142,11 @@ func (s *Sched) Yield(site string) {
 	}
 	s.mu.Lock()
 	me := s.me()
+	if me < 0 {
+		s.foreign()
+		s.mu.Unlock()
+		return
+	}
 	if me != s.cur {
 		s.parkReleased(me, site)
 		// now current; fall through to the ordinary yield
@@ -181,6 +184,12 @@ func (s *Sched) Blocked(site string) {
 	}
 	s.mu.Lock()
 	me := s.me()
+	if me < 0 {
+		s.foreign()
+		s.mu.Unlock()
+		runtime.Gosched()
+		return
+	}
 	if me != s.cur {
 		s.parkReleased(me, site)
 	}
@@ -199,6 +208,16 @@ func (s *Sched) Blocked(site string) {
 	s.mu.Unlock()
 	s.wake[next] <- struct{}{}
 	<-s.wake[me]
+}
+
+// foreign: a yield point was reached by a goroutine that is not a client.
+func (s *Sched) foreign() {
+	if !s.Nondet {
+		s.x.Logf("a goroutine started by the code under test reached a yield point; it is not scheduled by the seed")
+	}
+	s.Nondet = true
+	s.progress++
+	s.x.Probes["library_spawned_goroutine"]++
 }
 
 func (s *Sched) finish() { s.finOnce.Do(func() { close(s.finished) }) }
